@@ -144,7 +144,8 @@ class Excel:
         # DOTALL: the argument list of a call may run over a line break
         suspicious_constructions = re.findall(r'[a-zA-Z_\d]+\(.*?\)', value, re.DOTALL)
         if suspicious_constructions:
-            return [i for i in suspicious_constructions if not re.findall(r'[A-Z]+\(.*?\)', i, re.DOTALL)]
+            # an Excel function call: the name itself is written in upper-case letters and digits (SUM, LOG10; not getX)
+            return [i for i in suspicious_constructions if not re.match(r'[A-Z][A-Z\d]*\(', i)]
 
         return []
 
